@@ -52,19 +52,28 @@ Qed.
 
 (* a controlling agent with the feature on sends one nomination carrying the value (if positive) *)
 Theorem renominate_sends_value cfg l r v s p :
-  s_ctl s = true -> cf_renomination cfg = true -> find_pair l r s = Some p ->
+  s_ctl s = true -> cf_renomination cfg = true -> find_pair l r s = Some p -> p_state p = CandidatePairStateSucceeded ->
   snd (do_renominate cfg l r v s) =
     [OSend (c_h (p_loc p)) (c_addr (p_rem p))
        (mkMsg 0 1 (s_next_tx s) (Some (s_rufrag s, s_lufrag s)) (Some (s_rpwd s)) true
               (Some (true, cf_tiebreaker cfg)) (Some (c_prio (p_loc p))) (if 0 <? v then Some v else None) None None);
      ORet ROk].
 Proof.
-  intros Hc Hf Hp. unfold do_renominate, with_state. rewrite Hc, Hf, Hp. cbn [negb].
+  intros Hc Hf Hp Hs. unfold do_renominate, with_state. rewrite Hc, Hf, Hp, Hs. cbn [negb Z.eqb CandidatePairStateSucceeded Pos.eqb].
   unfold seq at 1. unfold fresh_tx, with_state, seq at 1. unfold modify at 1. cbn [fst snd app].
   unfold request_msg. cbn [s_rufrag s_lufrag s_rpwd s_ctl set_s_next_tx].
   match goal with |- context [send_binding_request cfg ?m ?a ?b ?st] =>
     pose proof (send_binding_request_out cfg m a b st) as Ho; destruct (send_binding_request cfg m a b st) as [s1 o1] end.
   cbn [fst snd] in *. subst o1. unfold emit. cbn. rewrite Hc. reflexivity.
+Qed.
+
+(* a pair that has not been validated is refused: nothing is sent, nothing changes *)
+Theorem renominate_needs_valid_pair cfg l r v s p :
+  s_ctl s = true -> cf_renomination cfg = true -> find_pair l r s = Some p -> p_state p <> CandidatePairStateSucceeded ->
+  do_renominate cfg l r v s = (s, [ORet RErrPairNotSucceeded]).
+Proof.
+  intros Hc Hf Hp Hs. unfold do_renominate, with_state. rewrite Hc, Hf, Hp. cbn [negb].
+  apply Z.eqb_neq in Hs. rewrite Hs. reflexivity.
 Qed.
 
 (* ---- smaller or equal values never change the selection ------------------------------------------ *)
